@@ -82,7 +82,7 @@ type refBlock struct {
 }
 
 func runC01(res *Result, tier string, seed int64, replay string) {
-	res.Rule = "part 1: every fixture pair in mjml/testdata (all of them, not the listed ones): real Render vs the recorded reference through the Lean canonical comparison (`refcmp`: attributes sorted, independent style declarations in normal form, whitespace collapsed; generated 16-hex ids α-renamed). part 2: top-level blocks cut from context-free fixtures; every block alone, then sequences of blocks from different fixtures; expected body = Merge.merge of the reference fragments (`refcompose`). Non-trivial = every fixture / every composed sequence of ≥2 blocks; distinct by content"
+	res.Rule = "(3) locality of rows and columns: for columns in a section, sections in the body and every content component in a column, with every attribute the element accepts written on it (one at a time), the markup of the neighbour behind it / in front of it is byte-identical to the markup next to the plain element; part 1: every fixture pair in mjml/testdata (all of them, not the listed ones): real Render vs the recorded reference through the Lean canonical comparison (`refcmp`: attributes sorted, independent style declarations in normal form, whitespace collapsed; generated 16-hex ids α-renamed). part 2: top-level blocks cut from context-free fixtures; every block alone, then sequences of blocks from different fixtures; expected body = Merge.merge of the reference fragments (`refcompose`). Non-trivial = every fixture / every composed sequence of ≥2 blocks; distinct by content"
 	drv, err := startDriverPool(8)
 	if err != nil {
 		res.Disagree(Violation{Sig: "driver-missing", What: err.Error()})
@@ -255,6 +255,124 @@ func runC01(res *Result, tier string, seed int64, replay string) {
 		outs[i], _ = renderPlain(composeDoc(sq))
 	}
 	parallel(8, len(seqs), func(i int) { c01Sequence(res, drv, seqs[i], outs[i]) })
+	c01Locality(res)
+}
+
+// c01Locality — rows and columns placed next to each other: what one element writes does not depend on the attributes of its
+// neighbour.  For every element kind that can stand in a row of siblings (columns in a section, content components in a
+// column, blocks in the body) and every attribute it accepts: [X(attr=v), Y] and [X, Y] must agree on everything from Y's
+// Outlook / standard opener to the end of the document, and [Y, X(attr=v)] and [Y, X] on everything up to the end of Y.
+// (Attributes that legitimately reach the neighbour — widths and what feeds them — are left out.)
+func c01Locality(res *Result) {
+	ySent, xSent := "YSENTINELY", "XSENTINELX"
+	type family struct {
+		name    string
+		tag     string
+		mk      func(attrs, sent string) string // the element with attributes and a content marker
+		wrap    func(kids string) string        // the document around the row of siblings
+		skip    map[string]bool
+		partner func(sent string) string // the neighbour Y
+	}
+	col := func(attrs, sent string) string { return `<mj-column` + attrs + `><mj-text>` + sent + `</mj-text></mj-column>` }
+	fams := []family{
+		{"columns", "mj-column", col, func(k string) string { return "<mjml><mj-body><mj-section>" + k + "</mj-section></mj-body></mjml>" },
+			map[string]bool{"width": true, "mj-class": true}, func(sent string) string { return col("", sent) }},
+		{"sections", "mj-section", func(a, sent string) string { return `<mj-section` + a + `>` + col("", sent) + `</mj-section>` },
+			func(k string) string { return "<mjml><mj-body>" + k + "</mj-body></mjml>" }, map[string]bool{"mj-class": true, "full-width": true, "background-url": true},
+			func(sent string) string { return `<mj-section>` + col("", sent) + `</mj-section>` }},
+	}
+	for _, leaf := range []string{"mj-text", "mj-button", "mj-image", "mj-divider", "mj-spacer", "mj-table"} {
+		leaf := leaf
+		fams = append(fams, family{"rows:" + leaf, leaf, func(a, sent string) string {
+			switch leaf {
+			case "mj-image":
+				return `<mj-image src="i.png" alt="` + sent + `"` + a + `/>`
+			case "mj-divider", "mj-spacer":
+				return `<` + leaf + ` css-class="` + sent + `"` + a + `/>`
+			case "mj-table":
+				return `<mj-table` + a + `><tr><td>` + sent + `</td></tr></mj-table>`
+			}
+			return `<` + leaf + a + `>` + sent + `</` + leaf + `>`
+		}, func(k string) string { return "<mjml><mj-body><mj-section><mj-column>" + k + "</mj-column></mj-section></mj-body></mjml>" },
+			map[string]bool{"mj-class": true, "src": true, "css-class": leaf == "mj-divider" || leaf == "mj-spacer", "alt": leaf == "mj-image"},
+			func(sent string) string { return `<mj-text>` + sent + `</mj-text>` }})
+	}
+	// Y's part of the output: from the last Outlook conditional opener (or, failing that, the last <tr / <div) in front of
+	// its marker to the end; and from the start to the first closing conditional / tag behind it
+	tail := func(h string, rows bool) string {
+		i := strings.Index(h, ySent)
+		if i < 0 {
+			return ""
+		}
+		// a column / section begins with its Outlook conditional; a row of a column with its <tr>
+		j := strings.LastIndex(h[:i], "<!--[if mso | IE]>")
+		if rows {
+			j = strings.LastIndex(h[:i], "<tr")
+		}
+		if j < 0 {
+			return ""
+		}
+		return h[j:]
+	}
+	head := func(h string) string {
+		i := strings.Index(h, ySent)
+		if i < 0 {
+			return ""
+		}
+		j := strings.Index(h[i:], "</td>")
+		if j < 0 {
+			return ""
+		}
+		return h[:i+j]
+	}
+	for _, f := range fams {
+		plainAfter, _ := renderPlain(f.wrap(f.mk("", xSent) + f.partner(ySent)))
+		plainBefore, _ := renderPlain(f.wrap(f.partner(ySent) + f.mk("", xSent)))
+		attrs := allowedSorted(f.tag)
+		hasCss := false
+		for _, a := range attrs {
+			hasCss = hasCss || a[0] == "css-class"
+		}
+		if !hasCss {
+			attrs = append(attrs, [2]string{"css-class", "string"}) // accepted everywhere, listed nowhere
+		}
+		for _, a := range attrs {
+			if f.skip[a[0]] {
+				continue
+			}
+			v1, _ := testValues(a[0], a[1])
+			if a[0] == "css-class" {
+				v1 = "kx1"
+			}
+			if v1 == "" {
+				continue
+			}
+			attr := ` ` + a[0] + `="` + xmlAttrEsc(v1) + `"`
+			for _, dir := range []string{"after", "before"} {
+				var got, want, src string
+				if dir == "after" {
+					src = f.wrap(f.mk(attr, xSent) + f.partner(ySent))
+					h, _ := renderPlain(src)
+					got, want = tail(h, strings.HasPrefix(f.name, "rows:")), tail(plainAfter, strings.HasPrefix(f.name, "rows:"))
+				} else {
+					src = f.wrap(f.partner(ySent) + f.mk(attr, xSent))
+					h, _ := renderPlain(src)
+					got, want = head(h), head(plainBefore)
+				}
+				key := "locality|" + f.name + "|" + a[0] + "|" + dir
+				res.Case(key, true)
+				res.Count("locality=" + f.name)
+				if got == "" || want == "" {
+					continue // the document does not render (a required attribute replaced …): nothing to compare
+				}
+				if got != want {
+					at := firstDiff(got, want)
+					res.Violate(Violation{Sig: key, Kind: "sequence", What: fmt.Sprintf("%s: the markup of the neighbour changes when %s=%q is written on the element %s it: …%s… vs …%s…", f.name, a[0], v1, map[string]string{"after": "in front of", "before": "behind"}[dir], around(got, at), around(want, at)),
+						Input: map[string]string{"source": src}})
+				}
+			}
+		}
+	}
 }
 
 // reID gives the generated identifiers of a reference position-specific names, so that fragments taken from different
